@@ -3,6 +3,7 @@ import TangeloProofs.CycLaws
 import TangeloProofs.Lemmas.Commute
 import TangeloProofs.Lemmas.CircuitInv
 import TangeloModel.Clifford
+import Mathlib.Data.List.Pairwise
 /-!
 # C09 — circuit transformations preserve the implemented operation
 
@@ -576,7 +577,7 @@ theorem rot_pair_ops (g0 gate : Gate) (o0 o : Op) (h0 : g0.toOp = some o0) (h1 :
   obtain ⟨nm, tgt, ctl, par, v1⟩ := gate
   simp only at hname ht hc hn
   subst hname ht hc
-  simp only [rotMergeSet, List.contains_cons, List.contains_nil, Bool.or_false, Bool.or_eq_true, beq_iff_eq] at hn
+  simp only [rotMergeSet, Tables.rotMergeSet, List.contains_cons, List.contains_nil, Bool.or_false, Bool.or_eq_true, beq_iff_eq] at hn
   rcases hn with rfl | rfl | rfl | rfl | rfl | rfl | rfl | rfl
   all_goals (
     rcases tgt with _ | ⟨t, _ | ⟨t2, rest⟩⟩ <;> cases ctl <;> cases par0 <;>
@@ -1627,7 +1628,7 @@ theorem smallSound_exact (k : Consts R) (L : k.Laws) : SmallSound k exactSmall :
   simp only [exactSmall, Bool.and_eq_true, beq_iff_eq] at hsm
   obtain ⟨hn, hp⟩ := hsm
   subst hp
-  simp only [rotSmallSet, List.contains_cons, List.contains_nil, Bool.or_false, Bool.or_eq_true, beq_iff_eq] at hn
+  simp only [rotSmallSet, Tables.rotSmallSet, List.contains_cons, List.contains_nil, Bool.or_false, Bool.or_eq_true, beq_iff_eq] at hn
   rcases hn with rfl | rfl | rfl | rfl | rfl | rfl
   all_goals (
     rcases tgt with _ | ⟨t, _ | ⟨t2, rest⟩⟩ <;> cases ctl <;>
@@ -2177,6 +2178,498 @@ theorem stack_sem (cs : List Circuit) (r : Circuit) (opss : List (List Op))
                     congr 1
                     · apply List.map_congr_left; intro x _; simp [relabel_comp]
                     · exact ih as bs (by simpa using hlb) (by simpa using hlen')
+
+/-! ### splitting into unentangled parts -/
+
+/-- what `split` needs from the qubit groups it computes: every gate lies inside one group, groups are pairwise disjoint -/
+structure GroupsOK (ent : List (List Nat)) (gates : List Gate) : Prop where
+  cover : ∀ g ∈ gates, ∃ (i : Nat) (s : List Nat), ent[i]? = some s ∧ ∀ q ∈ g.qubits, q ∈ s
+  disjoint : ∀ (i j : Nat) (s t : List Nat), i ≠ j → ent[i]? = some s → ent[j]? = some t → ∀ q ∈ s, q ∉ t
+
+theorem firstGroup_some (g : Gate) (k : Nat) (ent : List (List Nat)) (i : Nat) (h : firstGroup g k ent = some i) :
+    k ≤ i ∧ ∃ s, ent[i - k]? = some s ∧ ∃ q ∈ g.qubits, q ∈ s := by
+  induction ent generalizing k with
+  | nil => simp [firstGroup] at h
+  | cons s rest ih =>
+    simp only [firstGroup] at h
+    split at h
+    · rename_i hany
+      injection h with h; subst h
+      obtain ⟨q, hq, hs⟩ := List.any_eq_true.mp hany
+      exact ⟨Nat.le_refl _, s, by simp, q, hq, by simpa using hs⟩
+    · obtain ⟨h1, s', h2, h3⟩ := ih (k + 1) h
+      refine ⟨by omega, s', ?_, h3⟩
+      have : i - k = (i - (k + 1)) + 1 := by omega
+      rw [this]; simpa using h2
+
+theorem firstGroup_complete (g : Gate) (k : Nat) (ent : List (List Nat)) (j : Nat) (s : List Nat) (hj : ent[j]? = some s)
+    (q : Nat) (hq : q ∈ g.qubits) (hs : q ∈ s) : ∃ i, firstGroup g k ent = some i := by
+  induction ent generalizing k j with
+  | nil => simp at hj
+  | cons s0 rest ih =>
+    simp only [firstGroup]
+    split
+    · exact ⟨k, rfl⟩
+    · rename_i hany
+      cases j with
+      | zero =>
+        simp at hj; subst hj
+        exact absurd (List.any_eq_true.mpr ⟨q, hq, by simpa using hs⟩) hany
+      | succ j' => exact ih (k + 1) j' (by simpa using hj)
+
+/-- with groups that cover and are disjoint, the gate goes to *its* group -/
+theorem firstGroup_eq (ent : List (List Nat)) (gates : List Gate) (hG : GroupsOK ent gates) (g : Gate) (hg : g ∈ gates)
+    (hne : g.qubits ≠ []) : ∃ j s, firstGroup g 0 ent = some j ∧ ent[j]? = some s ∧ ∀ q ∈ g.qubits, q ∈ s := by
+  obtain ⟨j, s, hj, hs⟩ := hG.cover g hg
+  obtain ⟨q0, hq0⟩ := List.exists_mem_of_ne_nil _ hne
+  obtain ⟨i, hi⟩ := firstGroup_complete g 0 ent j s hj q0 hq0 (hs q0 hq0)
+  obtain ⟨_, s', hs', q, hq, hqs'⟩ := firstGroup_some g 0 ent i hi
+  simp only [Nat.sub_zero] at hs'
+  have : i = j := by
+    by_contra hne'
+    exact hG.disjoint i j s' s hne' hs' hj q hqs' (hs q hq)
+  subst this
+  exact ⟨i, s, hi, hj, hs⟩
+
+
+theorem ops_mem_gate (gs : List Gate) (os : List Op) (h : gatesToOps gs = some os) (o' : Op) (ho' : o' ∈ os) :
+    ∃ g' ∈ gs, g'.toOp = some o' := by
+  have hmap := (gatesToOps_iff_map gs os).mp h
+  have : some o' ∈ os.map some := List.mem_map.mpr ⟨o', ho', rfl⟩
+  rw [← hmap] at this
+  obtain ⟨g', hg', e⟩ := List.mem_map.mp this
+  exact ⟨g', hg', e⟩
+
+theorem flatten_set {α : Type} (L : List (List α)) (j : Nat) (X Lj : List α) (hj : L[j]? = some Lj) :
+    (L.set j X).flatten = (L.take j).flatten ++ X ++ (L.drop (j + 1)).flatten ∧
+    L.flatten = (L.take j).flatten ++ Lj ++ (L.drop (j + 1)).flatten := by
+  have hlt : j < L.length := by
+    by_contra hc; rw [List.getElem?_eq_none (by omega)] at hj; cases hj
+  constructor
+  · rw [set_eq_take_cons_drop L j X hlt]; simp
+  · conv_lhs => rw [eq_take_cons_drop L j Lj hj]
+    simp
+
+structure SplitInv (k : Consts R) (ent : List (List Nat)) (cs : List Circuit) (opsP : List Op) : Prop where
+  len : cs.length = ent.length
+  free : ∀ c ∈ cs, c.fixed = Option.none
+  supp : ∀ (i : Nat) (c : Circuit) (s : List Nat), cs[i]? = some c → ent[i]? = some s → ∀ g ∈ c.gates, ∀ q ∈ g.qubits, q ∈ s
+  sem : ∃ opsL : List (List Op), cs.map (fun c => gatesToOps c.gates) = opsL.map some ∧
+    ∀ ψ : State R, semOps k opsL.flatten ψ = semOps k opsP ψ
+
+theorem splitInv_init (k : Consts R) (ent : List (List Nat)) :
+    SplitInv k ent (ent.map (fun _ => Circuit.empty Option.none)) [] := by
+  refine ⟨by simp, ?_, ?_, ?_⟩
+  · intro c hc; obtain ⟨_, _, rfl⟩ := List.mem_map.mp hc; rfl
+  · intro i c s hc _ g hg
+    have : c ∈ ent.map (fun _ => Circuit.empty Option.none) := List.mem_of_getElem? hc
+    obtain ⟨_, _, rfl⟩ := List.mem_map.mp this
+    simp [Circuit.empty] at hg
+  · refine ⟨ent.map (fun _ => []), ?_, ?_⟩
+    · simp [List.map_map, Function.comp_def, Circuit.empty, gatesToOps]
+    · intro ψ
+      have : (ent.map (fun _ => ([] : List Op))).flatten = [] := by
+        induction ent with
+        | nil => rfl
+        | cons a as ih => simpa using ih
+      rw [this]
+
+
+theorem placeGate_sound (k : Consts R) (ent : List (List Nat)) (gates : List Gate) (hG : GroupsOK ent gates)
+    (cs cs' : List Circuit) (opsP : List Op) (g : Gate) (o : Op) (hg : g ∈ gates) (ho : g.toOp = some o)
+    (hinv : SplitInv k ent cs opsP) (h : placeGate ent cs g = .ok cs') :
+    SplitInv k ent cs' (opsP ++ [o]) := by
+  have hne : g.qubits ≠ [] := by rw [← toOp_qubits g o ho]; exact op_qubits_ne_nil o
+  obtain ⟨j, s, hfg, hsj, hsub⟩ := firstGroup_eq ent gates hG g hg hne
+  have hjlt : j < cs.length := by
+    rw [hinv.len]
+    by_contra hc; rw [List.getElem?_eq_none (by omega)] at hsj; cases hsj
+  have hcj : cs[j]? = some cs[j] := List.getElem?_eq_getElem hjlt
+  have hfree : cs[j].fixed = Option.none := hinv.free _ (List.getElem_mem hjlt)
+  have hadd : cs[j].addGate g = .ok (cs[j].addGateCore g) := by simp [Circuit.addGate, Circuit.addGateBad, hfree]
+  simp only [placeGate, hfg, hcj, hadd] at h
+  injection h with h; subst h
+  obtain ⟨opsL, hmap, hsem⟩ := hinv.sem
+  have hlenL : opsL.length = cs.length := by have := congrArg List.length hmap; simpa using this.symm
+  have hLj : opsL[j]? = some opsL[j] := List.getElem?_eq_getElem (by omega)
+  have hgj : gatesToOps cs[j].gates = some opsL[j] := by
+    have h1 : (cs.map (fun c => gatesToOps c.gates))[j]? = some (gatesToOps cs[j].gates) := by simp [hcj]
+    rw [hmap] at h1
+    simp only [List.getElem?_map, hLj, Option.map_some, Option.some.injEq] at h1
+    exact h1.symm
+  refine ⟨by simp [hinv.len], ?_, ?_, ?_⟩
+  · intro c hc
+    rcases List.mem_or_eq_of_mem_set hc with e | e
+    · exact hinv.free c e
+    · subst e; simp [Circuit.addGateCore, hfree]
+  · intro i c s' hc hs' g' hg' q hq
+    by_cases hij : i = j
+    · subst hij
+      rw [List.getElem?_set_self hjlt] at hc
+      injection hc with hc; subst hc
+      rw [hsj] at hs'; injection hs' with hs'; subst hs'
+      simp only [Circuit.addGateCore, List.mem_append, List.mem_singleton] at hg'
+      rcases hg' with e | e
+      · exact hinv.supp i cs[i] s hcj hsj g' e q hq
+      · subst e; exact hsub q hq
+    · rw [List.getElem?_set_ne (fun e => hij e.symm)] at hc
+      exact hinv.supp i c s' hc hs' g' hg' q hq
+  · refine ⟨opsL.set j (opsL[j] ++ [o]), ?_, ?_⟩
+    · rw [List.map_set, List.map_set, hmap]
+      congr 1
+      simp only [Circuit.addGateCore]
+      have h1 : gatesToOps [g] = some [o] := by simp [gatesToOps, ho]
+      rw [gatesToOps_append _ _ _ _ hgj h1]
+    · intro ψ
+      obtain ⟨e1, e2⟩ := flatten_set opsL j (opsL[j] ++ [o]) opsL[j] hLj
+      rw [e1]
+      -- o commutes with everything in the later groups
+      have hd : ∀ o' ∈ (opsL.drop (j + 1)).flatten, ∀ q ∈ o.qubits, q ∉ o'.qubits := by
+        intro o' ho' q hq hq'
+        obtain ⟨L', hL', ho'L⟩ := List.mem_flatten.mp ho'
+        obtain ⟨m, hm⟩ := List.mem_iff_getElem?.mp hL'
+        rw [List.getElem?_drop] at hm
+        have hmlt : j + 1 + m < cs.length := by
+          rw [← hlenL]; by_contra hc; rw [List.getElem?_eq_none (by omega)] at hm; cases hm
+        have hcm : cs[j + 1 + m]? = some cs[j + 1 + m] := List.getElem?_eq_getElem hmlt
+        have hgm : gatesToOps cs[j + 1 + m].gates = some L' := by
+          have h1 : (cs.map (fun c => gatesToOps c.gates))[j + 1 + m]? = some (gatesToOps cs[j + 1 + m].gates) := by simp [hcm]
+          rw [hmap] at h1
+          simp only [List.getElem?_map, hm, Option.map_some, Option.some.injEq] at h1
+          exact h1.symm
+        obtain ⟨g', hg', hto'⟩ := ops_mem_gate _ _ hgm o' ho'L
+        have hem : ∃ t, ent[j + 1 + m]? = some t := by
+          have : j + 1 + m < ent.length := by rw [← hinv.len]; exact hmlt
+          exact ⟨ent[j + 1 + m], List.getElem?_eq_getElem this⟩
+        obtain ⟨t, ht⟩ := hem
+        have hq't : q ∈ t := by
+          rw [toOp_qubits g' o' hto'] at hq'
+          exact hinv.supp (j + 1 + m) _ t hcm ht g' hg' q hq'
+        have hqs : q ∈ s := by rw [toOp_qubits g o ho] at hq; exact hsub q hq
+        exact hG.disjoint j (j + 1 + m) s t (by omega) hsj ht q hqs hq't
+      have hmove := move_across k o (opsL.drop (j + 1)).flatten hd
+      have e3 : (opsL.take j).flatten ++ (opsL[j] ++ [o]) ++ (opsL.drop (j + 1)).flatten =
+          ((opsL.take j).flatten ++ opsL[j]) ++ ([o] ++ (opsL.drop (j + 1)).flatten) := by simp
+      rw [e3, semOps_append, semOps_append]
+      have e4 : semOps k [o] (semOps k ((opsL.take j).flatten ++ opsL[j]) ψ) = o.sem k (semOps k ((opsL.take j).flatten ++ opsL[j]) ψ) := rfl
+      rw [e4, ← hmove]
+      have e5 : semOps k (opsP ++ [o]) ψ = o.sem k (semOps k opsP ψ) := by rw [semOps_append]; rfl
+      rw [e5, ← hsem ψ, e2, semOps_append, semOps_append, semOps_append]
+
+
+theorem split_fold_sound (k : Consts R) (ent : List (List Nat)) (gates : List Gate) (hG : GroupsOK ent gates) :
+    ∀ (suf : List Gate) (cs cs' : List Circuit) (opsP opsS : List Op), (∀ g ∈ suf, g ∈ gates) → gatesToOps suf = some opsS →
+      SplitInv k ent cs opsP → suf.foldlM (placeGate ent) cs = .ok cs' → SplitInv k ent cs' (opsP ++ opsS) := by
+  intro suf
+  induction suf with
+  | nil =>
+    intro cs cs' opsP opsS _ hs hinv h
+    simp [gatesToOps] at hs; subst hs
+    simp only [List.foldlM_nil, pure, Except.pure] at h
+    injection h with h; subst h
+    simpa using hinv
+  | cons g rest ih =>
+    intro cs cs' opsP opsS hmem hs hinv h
+    simp only [gatesToOps, bind, Option.bind] at hs
+    cases ho : g.toOp with
+    | none => simp [ho] at hs
+    | some o =>
+      cases hos : gatesToOps rest with
+      | none => simp [ho, hos] at hs
+      | some os =>
+        simp [ho, hos] at hs; subst hs
+        simp only [List.foldlM_cons, bind, Except.bind] at h
+        cases hp : placeGate ent cs g with
+        | error e => simp [hp] at h
+        | ok cs1 =>
+          simp only [hp] at h
+          have h1 := placeGate_sound k ent gates hG cs cs1 opsP g o (hmem g (by simp)) ho hinv hp
+          have := ih cs1 cs' (opsP ++ [o]) os (fun g' hg' => hmem g' (by simp [hg'])) hos h1 h
+          simpa [List.append_assoc] using this
+
+/-- **`split`** (without trimming): if the qubit groups the code computes cover every gate and are pairwise disjoint
+    (`GroupsOK`: checked by the model driver on every generated case), then the parts, executed one after the other in
+    any state, implement exactly the operation of the original circuit: each gate was moved only across gates of
+    other groups, with which it commutes. Every part only touches the qubits of its group. -/
+theorem split_sem (k : Consts R) (c : Circuit) (parts : List Circuit) (ops : List Op)
+    (hG : GroupsOK c.entangledIndices c.gates) (h1 : gatesToOps c.gates = some ops) (h2 : c.split false = .ok parts) :
+    ∃ opsL : List (List Op), parts.map (fun p => gatesToOps p.gates) = opsL.map some ∧
+      (∀ ψ : State R, semOps k opsL.flatten ψ = semOps k ops ψ) ∧
+      ∀ (i : Nat) (p : Circuit) (s : List Nat), parts[i]? = some p → c.entangledIndices[i]? = some s →
+        ∀ g ∈ p.gates, ∀ q ∈ g.qubits, q ∈ s := by
+  unfold Circuit.split at h2
+  simp only [bind, Except.bind, Bool.false_eq_true, if_false, pure, Except.pure] at h2
+  split at h2
+  · cases h2
+  · rename_i cs hf
+    injection h2 with h2; subst h2
+    have := split_fold_sound k c.entangledIndices c.gates hG c.gates _ cs [] ops (fun g hg => hg) h1
+      (splitInv_init k c.entangledIndices) hf
+    obtain ⟨opsL, hm, hs⟩ := this.sem
+    exact ⟨opsL, hm, by simpa using hs, this.supp⟩
+
+theorem groupsOkB_sound (ent : List (List Nat)) (gates : List Gate) (h : groupsOkB ent gates = true) : GroupsOK ent gates := by
+  simp only [groupsOkB, Bool.and_eq_true, List.all_eq_true, List.any_eq_true, List.mem_range, Bool.or_eq_true, beq_iff_eq,
+    Bool.not_eq_true', List.contains_eq_mem, decide_eq_true_eq, decide_eq_false_iff_not] at h
+  obtain ⟨hc, hd⟩ := h
+  constructor
+  · intro g hg
+    obtain ⟨s, hs, hq⟩ := hc g hg
+    obtain ⟨i, hi⟩ := List.mem_iff_getElem?.mp hs
+    exact ⟨i, s, hi, hq⟩
+  · intro i j s t hij hs ht q hq
+    have hi : i < ent.length := by
+      by_contra hcn; rw [List.getElem?_eq_none (by omega)] at hs; cases hs
+    have hj : j < ent.length := by
+      by_contra hcn; rw [List.getElem?_eq_none (by omega)] at ht; cases ht
+    rcases hd i hi j hj with e | e
+    · exact absurd e hij
+    · have e1 : ent.getD i [] = s := by simp [List.getD, hs]
+      have e2 : ent.getD j [] = t := by simp [List.getD, ht]
+      rw [e1, e2] at e
+      exact e q hq
+
+/-- non-vacuity: two entangled pairs interleaved with each other are split into two parts -/
+example : ∃ c parts, Circuit.ofGates [⟨"CNOT", [1], some [0], .none, false⟩, ⟨"CNOT", [3], some [2], .none, false⟩,
+      ⟨"H", [0], none, .none, false⟩, ⟨"H", [3], none, .none, false⟩] none = .ok c ∧
+    groupsOkB c.entangledIndices c.gates = true ∧ c.split false = .ok parts ∧ parts.map (·.gates.length) = [2, 2] := by
+  refine ⟨_, _, rfl, by decide, rfl, by decide⟩
+
+/-! ### `get_entangled_indices` returns disjoint groups that cover every gate -/
+
+def Disj (s t : List Nat) : Prop := ∀ x ∈ s, x ∉ t
+theorem Disj.symm {s t : List Nat} (h : Disj s t) : Disj t s := fun x hx hs => h x hs hx
+
+def interB (t q : List Nat) : Bool := t.any (fun x => q.contains x)
+theorem interB_iff (t q : List Nat) : interB t q = true ↔ ∃ x ∈ t, x ∈ q := by simp [interB]
+theorem interB_false_iff (t q : List Nat) : interB t q = false ↔ Disj t q := by
+  rw [← Bool.not_eq_true, interB_iff]; simp [Disj]
+
+theorem mem_setUnion (qs q : List Nat) (x : Nat) : x ∈ qs.foldl setInsert q ↔ x ∈ qs ∨ x ∈ q := mem_foldl_setInsert qs q x
+
+/-- the absorb loop over a list `L` of pairwise disjoint groups -/
+theorem absorb_fold (L : List (List Nat)) (hL : L.Pairwise Disj) (q : List Nat) (e : List (List Nat)) :
+    (∀ x, x ∈ (L.foldl absorb (q, e)).1 ↔ x ∈ q ∨ ∃ t ∈ L, interB t q = true ∧ x ∈ t) ∧
+    (L.foldl absorb (q, e)).2 = e.filter (fun t => !(L.contains t && interB t q)) := by
+  induction L generalizing q e with
+  | nil => simp
+  | cons qs rest ih =>
+    have hp := List.pairwise_cons.mp hL
+    simp only [List.foldl_cons]
+    by_cases hi : interB qs q = true
+    · have hab : absorb (q, e) qs = (qs.foldl setInsert q, e.filter (· != qs)) := by
+        simp only [absorb]; exact if_pos hi
+      rw [hab]
+      obtain ⟨h1, h2⟩ := ih hp.2 (qs.foldl setInsert q) (e.filter (· != qs))
+      -- groups of `rest` are disjoint from qs: they meet the enlarged q iff they meet q
+      have hsame : ∀ t ∈ rest, interB t (qs.foldl setInsert q) = interB t q := by
+        intro t ht
+        have hd : Disj qs t := hp.1 t ht
+        rw [Bool.eq_iff_iff, interB_iff, interB_iff]
+        constructor
+        · rintro ⟨x, hx, hxq⟩
+          rcases (mem_setUnion qs q x).mp hxq with e1 | e1
+          · exact absurd hx (hd x e1)
+          · exact ⟨x, hx, e1⟩
+        · rintro ⟨x, hx, hxq⟩; exact ⟨x, hx, (mem_setUnion qs q x).mpr (Or.inr hxq)⟩
+      constructor
+      · intro x
+        rw [h1 x, mem_setUnion]
+        constructor
+        · rintro ((hx | hx) | ⟨t, ht, hti, hxt⟩)
+          · exact Or.inr ⟨qs, by simp, hi, hx⟩
+          · exact Or.inl hx
+          · exact Or.inr ⟨t, by simp [ht], by rw [← hsame t ht]; exact hti, hxt⟩
+        · rintro (hx | ⟨t, ht, hti, hxt⟩)
+          · exact Or.inl (Or.inr hx)
+          · rcases List.mem_cons.mp ht with e1 | e1
+            · subst e1; exact Or.inl (Or.inl hxt)
+            · exact Or.inr ⟨t, e1, by rw [hsame t e1]; exact hti, hxt⟩
+      · rw [h2, List.filter_filter]
+        apply List.filter_congr
+        intro t _
+        by_cases hts : t = qs
+        · subst hts; simp [hi]
+        · have hne : (t != qs) = true := by simpa using hts
+          have hne' : (t == qs) = false := by simpa using hts
+          by_cases htr : t ∈ rest
+          · simp [hne, hne', htr, hsame t htr, List.contains_cons]
+          · simp [hne, hne', htr, List.contains_cons, hts]
+    · have hi' : interB qs q = false := by simpa using hi
+      have hab : absorb (q, e) qs = (q, e) := by
+        simp only [absorb]; exact if_neg hi
+      rw [hab]
+      obtain ⟨h1, h2⟩ := ih hp.2 q e
+      constructor
+      · intro x
+        rw [h1 x]
+        constructor
+        · rintro (hx | ⟨t, ht, hti, hxt⟩)
+          · exact Or.inl hx
+          · exact Or.inr ⟨t, by simp [ht], hti, hxt⟩
+        · rintro (hx | ⟨t, ht, hti, hxt⟩)
+          · exact Or.inl hx
+          · rcases List.mem_cons.mp ht with e1 | e1
+            · subst e1; rw [hi'] at hti; cases hti
+            · exact Or.inr ⟨t, e1, hti, hxt⟩
+      · rw [h2]
+        apply List.filter_congr
+        intro t _
+        by_cases hts : t = qs
+        · subst hts; simp [hi']
+        · have hne' : (t == qs) = false := by simpa using hts
+          simp [List.contains_cons, hne', hts]
+
+
+/-- invariant of `get_entangled_indices` after the gates `done`: groups pairwise disjoint, non-empty, and every gate
+    inside one group -/
+structure EntInv (ent : List (List Nat)) (done : List Gate) : Prop where
+  pair : ent.Pairwise Disj
+  nonempty : ∀ s ∈ ent, s ≠ []
+  cover : ∀ g ∈ done, ∃ s ∈ ent, ∀ q ∈ g.qubits, q ∈ s
+
+theorem mem_setOfList (l : List Nat) (x : Nat) : x ∈ setOfList l ↔ x ∈ l := by
+  simp [setOfList, mem_foldl_setInsert]
+
+theorem pairwise_mem_disj (ent : List (List Nat)) (hp : ent.Pairwise Disj) (s t : List Nat) (hs : s ∈ ent) (ht : t ∈ ent)
+    (hne : s ≠ t) : Disj s t := by
+  induction ent with
+  | nil => simp at hs
+  | cons a rest ih =>
+    have hpc := List.pairwise_cons.mp hp
+    rcases List.mem_cons.mp hs with e1 | e1 <;> rcases List.mem_cons.mp ht with e2 | e2
+    · exact absurd (e1.trans e2.symm) hne
+    · subst e1; exact hpc.1 t e2
+    · subst e2; exact Disj.symm (hpc.1 s e1)
+    · exact ih hpc.2 e1 e2
+
+theorem entStep_inv (ent : List (List Nat)) (done : List Gate) (g : Gate) (hg : g.qubits ≠ []) (h : EntInv ent done) :
+    EntInv (entStep ent g) (done ++ [g]) := by
+  have hrev : ent.reverse.Pairwise Disj := by
+    rw [List.pairwise_reverse]
+    exact h.pair.imp (fun hab => Disj.symm hab)
+  obtain ⟨h1, h2⟩ := absorb_fold ent.reverse hrev (setOfList g.qubits) ent
+  have hcont : ∀ t, ent.reverse.contains t = ent.contains t := by intro t; simp
+  set r := ent.reverse.foldl absorb (setOfList g.qubits, ent) with hr
+  have hr2 : r.2 = ent.filter (fun t => !(interB t (setOfList g.qubits))) := by
+    rw [h2]
+    apply List.filter_congr
+    intro t ht
+    simp [ht]
+  have hr1 : ∀ x, x ∈ r.1 ↔ x ∈ g.qubits ∨ ∃ t ∈ ent, interB t (setOfList g.qubits) = true ∧ x ∈ t := by
+    intro x; rw [h1 x, mem_setOfList]; simp
+  show EntInv (r.2 ++ [r.1]) (done ++ [g])
+  refine ⟨?_, ?_, ?_⟩
+  · rw [List.pairwise_append]
+    refine ⟨?_, by simp, ?_⟩
+    · rw [hr2]; exact h.pair.filter _
+    · intro s hs t ht
+      simp only [List.mem_singleton] at ht; subst ht
+      rw [hr2, List.mem_filter] at hs
+      obtain ⟨hse, hsi⟩ := hs
+      have hsd : Disj s (setOfList g.qubits) := (interB_false_iff s _).mp (by simpa using hsi)
+      intro x hx hxr
+      rcases (hr1 x).mp hxr with e1 | ⟨t, ht, hti, hxt⟩
+      · exact hsd x hx ((mem_setOfList _ _).mpr e1)
+      · have hne : s ≠ t := by
+          intro e2; subst e2
+          have : interB s (setOfList g.qubits) = false := by simpa using hsi
+          rw [this] at hti; cases hti
+        exact pairwise_mem_disj ent h.pair s t hse ht hne x hx hxt
+  · intro s hs
+    rcases List.mem_append.mp hs with e1 | e1
+    · rw [hr2] at e1; exact h.nonempty s (List.mem_filter.mp e1).1
+    · simp only [List.mem_singleton] at e1; subst e1
+      obtain ⟨q0, hq0⟩ := List.exists_mem_of_ne_nil _ hg
+      intro e2
+      have : q0 ∈ r.1 := (hr1 q0).mpr (Or.inl hq0)
+      rw [e2] at this; simp at this
+  · intro g' hg'
+    rcases List.mem_append.mp hg' with e1 | e1
+    · obtain ⟨s, hs, hsub⟩ := h.cover g' e1
+      by_cases hi : interB s (setOfList g.qubits) = true
+      · exact ⟨r.1, by simp, fun q hq => (hr1 q).mpr (Or.inr ⟨s, hs, hi, hsub q hq⟩)⟩
+      · refine ⟨s, ?_, hsub⟩
+        apply List.mem_append_left
+        rw [hr2, List.mem_filter]
+        exact ⟨hs, by simpa using hi⟩
+    · simp only [List.mem_singleton] at e1; subst e1
+      exact ⟨r.1, by simp, fun q hq => (hr1 q).mpr (Or.inl hq)⟩
+
+theorem entangled_inv (gs : List Gate) (hq : ∀ g ∈ gs, g.qubits ≠ []) :
+    ∀ (ent : List (List Nat)) (done : List Gate), EntInv ent done → EntInv (gs.foldl entStep ent) (done ++ gs) := by
+  induction gs with
+  | nil => intro ent done h; simpa using h
+  | cons g rest ih =>
+    intro ent done h
+    have := ih (fun g' hg' => hq g' (by simp [hg'])) (entStep ent g) (done ++ [g]) (entStep_inv ent done g (hq g (by simp)) h)
+    simpa [List.append_assoc] using this
+
+/-- **`get_entangled_indices` is a partition**: for every circuit whose gates touch at least one qubit each, the groups
+    it returns are pairwise disjoint and every gate lies inside one of them - the hypothesis of `split_sem` always holds -/
+theorem entangled_groupsOK (c : Circuit) (hq : ∀ g ∈ c.gates, g.qubits ≠ []) : GroupsOK c.entangledIndices c.gates := by
+  have h : EntInv c.entangledIndices c.gates := by
+    have := entangled_inv c.gates hq [] [] ⟨List.Pairwise.nil, by simp, by simp⟩
+    simpa [Circuit.entangledIndices] using this
+  constructor
+  · intro g hg
+    obtain ⟨s, hs, hsub⟩ := h.cover g hg
+    obtain ⟨i, hi⟩ := List.mem_iff_getElem?.mp hs
+    exact ⟨i, s, hi, hsub⟩
+  · intro i j s t hij hs ht
+    have hsm := List.mem_of_getElem? hs
+    have htm := List.mem_of_getElem? ht
+    have hne : s ≠ t := by
+      intro e; subst e
+      -- equal non-empty lists at two positions would share an element
+      have hil : i < c.entangledIndices.length := by
+        by_contra hc; rw [List.getElem?_eq_none (by omega)] at hs; cases hs
+      have hjl : j < c.entangledIndices.length := by
+        by_contra hc; rw [List.getElem?_eq_none (by omega)] at ht; cases ht
+      have hpw := List.pairwise_iff_getElem.mp h.pair
+      obtain ⟨x, hx⟩ := List.exists_mem_of_ne_nil _ (h.nonempty s hsm)
+      have e1 : c.entangledIndices[i] = s := by rw [List.getElem?_eq_getElem hil] at hs; injection hs
+      have e2 : c.entangledIndices[j] = s := by rw [List.getElem?_eq_getElem hjl] at ht; injection ht
+      rcases Nat.lt_or_gt_of_ne hij with hlt | hgt
+      · have := hpw i j hil hjl hlt; rw [e1, e2] at this; exact this x hx hx
+      · have := hpw j i hjl hil hgt; rw [e1, e2] at this; exact this x hx hx
+    exact pairwise_mem_disj _ h.pair s t hsm htm hne
+
+/-- **`split` without trimming, unconditionally**: the parts executed one after the other implement exactly the
+    operation of the circuit, and each part only touches the qubits of its group -/
+theorem split_sem_full (k : Consts R) (c : Circuit) (parts : List Circuit) (ops : List Op)
+    (h1 : gatesToOps c.gates = some ops) (h2 : c.split false = .ok parts) :
+    ∃ opsL : List (List Op), parts.map (fun p => gatesToOps p.gates) = opsL.map some ∧
+      (∀ ψ : State R, semOps k opsL.flatten ψ = semOps k ops ψ) ∧
+      ∀ (i : Nat) (p : Circuit) (s : List Nat), parts[i]? = some p → c.entangledIndices[i]? = some s →
+        ∀ g ∈ p.gates, ∀ q ∈ g.qubits, q ∈ s := by
+  have hq : ∀ g ∈ c.gates, g.qubits ≠ [] := by
+    intro g hg
+    obtain ⟨i, hi⟩ := List.mem_iff_getElem?.mp hg
+    obtain ⟨o, _, hto⟩ := ops_at c.gates ops h1 i g hi
+    rw [← toOp_qubits g o hto]; exact op_qubits_ne_nil o
+  exact split_sem k c parts ops (entangled_groupsOK c hq) h1 h2
+
+/-- **`split` with trimming**: the untrimmed parts multiply to the circuit (`split_sem_full`), and every returned part is
+    the corresponding untrimmed part relabelled by an injective map of qubit labels (so it acts on its compact register
+    as that part acts on its group of qubits, `relabel_semOps`) -/
+theorem split_trim_sem (k : Consts R) (c : Circuit) (parts : List Circuit) (ops : List Op)
+    (h1 : gatesToOps c.gates = some ops) (h2 : c.split true = .ok parts) :
+    ∃ (opsL : List (List Op)) (σs : List (Nat → Nat)), σs.length = opsL.length ∧ (∀ σ ∈ σs, Function.Injective σ) ∧
+      (∀ ψ : State R, semOps k opsL.flatten ψ = semOps k ops ψ) ∧
+      parts.map (fun p => gatesToOps p.gates) = (opsL.zip σs).map (fun p => some (p.1.map (Op.relabel p.2))) := by
+  -- the untrimmed parts
+  have hsplit : ∃ cs, c.split false = .ok cs ∧ cs.mapM trimQubits = .ok parts := by
+    unfold Circuit.split at h2 ⊢
+    simp only [bind, Except.bind, if_true, Bool.false_eq_true, if_false, pure, Except.pure] at h2 ⊢
+    split at h2
+    · cases h2
+    · rename_i cs hcs
+      exact ⟨cs, by simp [hcs], h2⟩
+  obtain ⟨cs, hcs, htrim⟩ := hsplit
+  obtain ⟨opsL, hm, hsem, _⟩ := split_sem_full k c cs ops h1 hcs
+  obtain ⟨σs, hl, hinj, hmap⟩ := mapM_trim_ops cs parts opsL hm htrim
+  exact ⟨opsL, σs, hl, hinj, hsem, hmap⟩
 
 /-- non-vacuity of the relabelling theorems: trimming a circuit on qubits 2 and 5 gives a circuit on 0 and 1 -/
 example : ∃ c r, Circuit.ofGates [⟨"H", [2], none, .none, false⟩, ⟨"CNOT", [5], some [2], .none, false⟩] none = .ok c ∧
